@@ -205,6 +205,8 @@ def dgramEvents (svc : String) (d : Bytes) : List Ev :=
         if q == 0x54 then [{ kind := "cs", fields := [str "a2s_info", d] }]
         else if q == 0x55 then [{ kind := "cs", fields := [str "a2s_player", d] }]
         else if q == 0x56 then [{ kind := "cs", fields := [str "a2s_rules", d] }]
+        else if q == 0x57 then [{ kind := "cs", fields := [str "a2s_serverquery_challenge", d] }]
+        else if q == 0x69 then [{ kind := "cs", fields := [str "a2s_ping", d] }]
         else []
       | [] => []
     else []
